@@ -79,6 +79,7 @@ type histState struct {
 	harnessErr   string
 	optPool      map[string]*lint.FilterOptions // filter options built by mkopts ops, by their plan form
 	timersSet    bool
+	opHung       bool // a registry op did not return: its goroutine may still be running, nothing more is touched
 	keptExamples []keptExample
 	hangDER      []byte // bytes and configuration text of the lint call in progress (for the hang report)
 	hangCfg      string
@@ -335,7 +336,38 @@ func (h *histState) cfgText(c int) string {
 	return h.cfgs[c].text
 }
 
+// step runs one op. Registry operations (everything but the lint-calling ops, which have their own per-call
+// watchdog) are bounded too: a Filter, SetConfiguration, listing or lookup that has not returned after
+// opHangLimit is a registry left unusable by what happened before - e.g. a lock still held by a call that
+// returned an error.
 func (h *histState) step(i int, op *Op) {
+	switch op.K {
+	case "lint", "repeat", "probe", "direct", "fresh", "clock", "gc", "loadcfg":
+		h.stepInner(i, op)
+		return
+	}
+	done := make(chan struct{})
+	go func() {
+		defer close(done)
+		h.stepInner(i, op)
+	}()
+	select {
+	case <-done:
+	case <-time.After(opHangLimit):
+		h.ctr.inc("op_hang")
+		h.aborted = true
+		h.opHung = true
+		v := Violation{Property: "C08", Class: "registry_op_hang", Op: i, Site: op.K,
+			Detail: fmt.Sprintf("the %s call of op %d on registry %d did not return within %v: an earlier operation of this history left the registry (or its configuration) unusable", op.K, i, op.Reg, opHangLimit)}
+		h.violate(v)
+		if op.K == "setcfg" || op.K == "getcfg" || op.K == "defaultcfg" {
+			v.Property = "C11"
+			h.violate(v)
+		}
+	}
+}
+
+func (h *histState) stepInner(i int, op *Op) {
 	h.ctr.inc("op_" + op.K)
 	pair := h.prevKind + ">" + op.K
 	h.mark("op_pairs", pair)
